@@ -153,6 +153,30 @@ let handle (p : string) : string =
             if close then for i = n downto 1 do Buffer.add_string b (if (i - 1) land 1 = 1 then "}" else "]") done);
     let r = parse_result (bytes_of_string (Buffer.contents b)) false in
     r ^ "-deep" ^ (if n > int_of_n mAX_DEPTH then "-over" else if n = int_of_n mAX_DEPTH then "-at" else "-under")
+  | ["pdoc"; d; t] ->
+    let d0 = build_s d in
+    let perr = [| ""; "A JSON Patch document must be an array"; "Elements within a JSON Patch array must be objects";
+                  "Missing path specifier"; "Missing or invalid value"; "Missing from specifier"; "Invalid or missing 'op'" |] in
+    let text = s_of_hex t in
+    (match patch_parse_text text with
+     | PPOk ops ->
+       let (ok, d') = patch_apply_text text d0 in
+       let qf = quirk_free ops d0 in
+       let (rok, rd) = rfc_patch ops d0 in
+       "pp=1;all=" ^ bool01 ok ^ ";dall=" ^ show_doc d' ^
+       (if qf && (rok <> ok || rd <> d') then ";chk=RFC-MISMATCH" else "") ^
+       (if not qf then begin
+          let rec first ops d = match ops with
+            | [] -> 0
+            | o :: r -> let k = int_of_n (quirk_kind o d) in
+                        if k <> 0 then k else (match apply_op o d with Some d' -> first r d' | None -> 0) in
+          ";known=" ^ known_ids.(first ops d0) end else "") ^
+       Printf.sprintf ";class=pdoc:accepted-%dops-%s" (min 4 (List.length ops)) (if ok then "applied" else "failed")
+     | PPBad c ->
+       let (_, d') = patch_apply_text text d0 in
+       "pp=0;perr=" ^ hex_of_string perr.(int_of_n c) ^ ";all=0;dall=" ^ show_doc d' ^ ";class=pdoc:bad" ^ string_of_int (int_of_n c)
+     | PPLex _ -> "pp=0;perr=lex;all=0;dall=" ^ show_doc d0 ^ ";class=pdoc:lexerr"
+     | PPHaz -> "pp=HAZARD;class=pdoc:hazard")
   | ["cmp"; x; y] ->
     let x = getv (build_s x) and y = getv (build_s y) in
     let is_int v = match v with JUInt _ | JInt _ | JUInt64 _ | JInt64 _ -> true | _ -> false in
